@@ -257,7 +257,7 @@ _CANON_RULE = ('datasets of the symmetric shapes the property names: cycles (2-7
                'three quarters of the datasets with FNV-1a-64 substituted through SetHashFunc and compared byte for byte with the Gallina model of RDFC-1.0, one quarter with SHA-256')
 
 PROPS['C03'] = dict(
-    families=[dict(name='c03-canon', quick=1500, thorough=120000), dict(name='c04-vectors', quick=1, thorough=1)],
+    families=[dict(name='c03-canon', quick=1500, thorough=15000), dict(name='c04-vectors', quick=1, thorough=1)],
     slice=25,
     rule=_CANON_RULE + '; the 65 W3C rdf-canon vectors (SHA-256, SHA-384 for test075) byte-compared with the published results, the poison graphs must end in an error or a self-consistent answer',
     trusted_base=['model/Canon.v: RDFC-1.0 4.4-4.8 as coded in rdfcanon/*.go, parametric in the hash; Go map iteration replaced by first-occurrence order; Heap permutation order of github.com/cespare/permute transcribed',
@@ -270,7 +270,7 @@ PROPS['C03'] = dict(
 )
 
 PROPS['C04'] = dict(
-    families=[dict(name='c04-vectors', quick=1, thorough=1), dict(name='c03-canon', quick=1500, thorough=120000)],
+    families=[dict(name='c04-vectors', quick=1, thorough=1), dict(name='c03-canon', quick=1500, thorough=15000)],
     slice=25,
     rule='the 65 W3C rdf-canon vectors: output byte-equal to the published canonical N-Quads (SHA-256; SHA-384 where the manifest says so); ' + _CANON_RULE,
     trusted_base=['the published W3C results are the external definition for SHA-256/384; model/Canon.v is the definition for a substituted hash',
